@@ -18,6 +18,11 @@
 #[path = "private.rs"]
 pub mod __private;
 
+#[cfg(divan_verif)]
+#[doc(hidden)]
+#[path = "verif.rs"]
+pub mod __verif;
+
 #[macro_use]
 mod util;
 
